@@ -472,7 +472,7 @@ fn run_named(c: &mut Ctx, thorough: bool) {
         c.nontrivial();
     }
     // object-stream configurations (0.3–3 s per file) only along the two axes, at version 1.7 (quick)
-    let cfgs: Vec<Cfg> = Cfg::all().into_iter().filter(|cf| !cf.obj_streams || ((ni == 0 || si == 0) && (thorough || (!cf.v14 && cf.compress)))).collect();
+    let cfgs: Vec<Cfg> = Cfg::all().into_iter().filter(|cf| !cf.obj_streams || if thorough { ni == 0 || si == 0 } else { !cf.v14 && cf.compress && ((si == 0 && ni <= 2) || (ni == 0 && si <= 1)) }).collect();
     let mut oh = 0u64;
     for cfg in &cfgs {
         let tag = format!("{} name={name:?} string={s:?}", cfg.label());
@@ -515,7 +515,7 @@ fn run_encrypted(c: &mut Ctx, thorough: bool) {
     c.input(vx::h64(&(strength, &p)));
     c.nontrivial();
     let plain = !p.metadata && p.pages[0].size == 0 && p.pages[0].rot == 0;
-    let small = p.pages[0].body.is_empty() || p.pages[0].body == [prog::Call::HelvText] || p.pages[0].body == [prog::Call::TextAnnot];
+    let small = p.pages[0].body.is_empty();
     let cfgs: Vec<Cfg> = Cfg::all().into_iter().filter(|cf| !cf.obj_streams || (plain && (thorough || (small && !cf.v14 && cf.compress)))).collect();
     let mut oh = 0u64;
     for cfg in &cfgs {
@@ -550,7 +550,7 @@ pub fn run(rep: &mut Report) {
     rep.assume("refpdf::file::validate implements ISO 32000-1 §7.5 (validated against the qpdf-written fixture interop_base.pdf, which must pass, and hand-damaged files in its unit tests)");
     rep.assume("a raw CR inside a literal string is syntactically valid (§7.3.4.2) and is not reported here (C09/C30 cover the value)");
     rep.assume("names with raw bytes above 0x7e are excluded from the name alphabet: §7.3.5 only recommends #xx for them");
-    rep.note("objstm_family", json!("object-stream configurations (quick: header version 1.7 only): programs without size/rotation/metadata deviation with one page and a body ≤ 1 (thorough ≤ 2), two pages with equal bodies ≤ 1 (thorough: any bodies ≤ 1), thorough also three pages with equal bodies ≤ 1; names-and-strings: control name or control string (quick: compressed, version 1.7 only); encrypted: empty / one text / one annotation body (quick: compressed, version 1.7 only; thorough: all bodies ≤ 1)"));
+    rep.note("objstm_family", json!("object-stream configurations, programs without size/rotation/metadata deviation: quick (header version 1.7 only) = one page with an empty body or one of {Helvetica text, gray image, text annotation, outline entry}, or two pages with one Helvetica text each; thorough = one page with a body ≤ 2, two pages with bodies ≤ 1, three pages with equal bodies ≤ 1. names-and-strings: quick = first three names with the control string and the first two strings with the control name, compressed, version 1.7; thorough = control name or control string, all 8. encrypted: quick = empty body, compressed, version 1.7; thorough = all bodies ≤ 1, all 8"));
     let dev = 1;
     let single_len = if thorough { 4 } else { 3 };
 
